@@ -122,8 +122,23 @@ def audit(module, ns, timeout=900):
     return res
 
 
+def driver_table():
+    """{request keyword: (step function, Lean module)} read from lean/SarpyModel/Drivers.lean and the Drivers/*.lean files"""
+    text = open(os.path.join(LEAN, 'SarpyModel', 'Drivers.lean')).read()
+    steps = dict(re.findall(r'\|\s*"(\w+)"\s*::\s*rest\s*=>\s*\((\w+)\s+rest\)', text))
+    where = {}
+    ddir = os.path.join(LEAN, 'SarpyModel', 'Drivers')
+    for f in sorted(os.listdir(ddir)):
+        if f.endswith('.lean'):
+            for fn in re.findall(r'^def\s+(\w+Step)\b', open(os.path.join(ddir, f)).read(), flags=re.M):
+                where[fn] = 'SarpyModel.Drivers.' + f[:-5]
+    return {k: (fn, where[fn]) for k, fn in steps.items() if fn in where}
+
+
 class Driver:
-    """line protocol to the Lean model driver (`lake env lean --run Main.lean`)"""
+    """line protocol to the Lean model driver.  Each run interprets a generated entry file that imports only the driver modules
+    the queued requests address (first word of each line), so that a regenerated kernel another property depends on, which no
+    longer translates or builds, cannot take this property's model down with it."""
 
     def __init__(self):
         self.lines = []
@@ -135,7 +150,26 @@ class Driver:
     def run(self, timeout=1800):
         if not self.lines:
             return []
-        rc, out, err = sh(['lake', 'env', 'lean', '--run', 'Main.lean'], cwd=LEAN, timeout=timeout,
+        table = driver_table()
+        words = sorted({l.split(' ', 1)[0] for l in self.lines})
+        unknown = [w for w in words if w not in table]
+        if unknown:
+            raise Infra(f'no model driver for request keyword(s) {unknown}')
+        mods = sorted({table[w][1] for w in words})
+        ok, failed, errors, log = lake_build(mods)
+        if not ok:
+            raise Infra('model driver does not build: ' + '; '.join(f'{f}:{l}: {m}' for f, l, c, m in errors[:5]) + log[-600:])
+        d = os.path.join(LEAN, '.lake', 'audit')
+        os.makedirs(d, exist_ok=True)
+        main = os.path.join(d, 'Main_' + '_'.join(words) + '.lean')
+        src = ''.join(f'import {m}\n' for m in mods) + 'open Sarpy.Drivers in\ndef stepLine (line : String) : String :=\n' \
+            '  let toks := (line.trimAscii.toString.splitOn " ").filter (· ≠ "")\n  match toks with\n' + \
+            ''.join(f'  | "{w}" :: rest => ({table[w][0]} rest).getD "bad-op"\n' for w in words) + '  | _ => "bad-op"\n' \
+            'partial def loopLines (h : IO.FS.Stream) : IO Unit := do\n  let line ← h.getLine\n  if line.isEmpty then return ()\n' \
+            '  IO.println (stepLine line)\n  loopLines h\ndef main : IO Unit := do loopLines (← IO.getStdin)\n'
+        with open(main, 'w') as f:
+            f.write(src)
+        rc, out, err = sh(['lake', 'env', 'lean', '--run', main], cwd=LEAN, timeout=timeout,
                           input='\n'.join(self.lines) + '\n')
         if rc != 0:
             raise Infra('model driver failed: ' + err[-2000:])
@@ -178,8 +212,10 @@ class Check:
                 pass
 
     # ---- proof side
-    def prove(self, targets, module, ns, required, gen_info=None):
+    def prove(self, targets, module, ns, required, gen_info=None, extra=()):
+        # extra: [(module, namespace, [required theorem names])] audited in addition (bridge files shared by several properties)
         """build + audit. Returns list of broken obligations (theorem names or modules)."""
+        targets = [t for t in targets if t != 'SarpyModel.Drivers']    # drivers are built per request set by Driver.run
         ok, failed, errors, log = lake_build(targets)
         broken = []
         thms = {}
@@ -191,18 +227,22 @@ class Check:
             self.coverage['discharged'] = 0
         else:
             thms = audit(module, ns)
-            bad_ax = {n: a for n, a in thms.items() if set(a) - ALLOWED_AXIOMS}
             missing = [r for r in required if f'{ns}.{r}' not in thms]
+            for (m2, ns2, req2) in extra:
+                t2 = audit(m2, ns2)
+                thms.update({n: a for n, a in t2.items() if n[len(ns2) + 1:] in req2})
+                missing += [f'{ns2}.{r}' for r in req2 if f'{ns2}.{r}' not in t2]
+            bad_ax = {n: a for n, a in thms.items() if set(a) - ALLOWED_AXIOMS}
             hits = grep_forbidden(lean_files())
             for n, a in bad_ax.items():
                 broken.append(f'{n} depends on non-standard axioms {sorted(set(a) - ALLOWED_AXIOMS)}')
             for r in missing:
-                broken.append(f'{ns}.{r} (required theorem missing)')
+                broken.append((r if r.startswith('Sarpy.') else f'{ns}.{r}') + ' (required theorem missing)')
             for f, h in hits:
                 broken.append(f'forbidden construct `{h}` in {f}')
             self.coverage['obligations'] = len(thms) + len(missing)
             self.coverage['discharged'] = len(thms) - len(bad_ax)
-            self.coverage['theorems'] = sorted(n[len(ns) + 1:] for n in thms)
+            self.coverage['theorems'] = sorted((n[len(ns) + 1:] if n.startswith(ns + '.') else n) for n in thms)
             self.coverage['axioms_used'] = sorted({a for v in thms.values() for a in v})
         self.coverage['checker_cmd'] = f'cd lean && lake build {" ".join(targets)} && lake env lean .lake/audit/Audit_{ns.replace(".", "_")}.lean'
         if ok and self.tier == 'thorough':
